@@ -484,6 +484,50 @@ theorem damage_is_contained (A B : List Token) (progA progB : Program)
     rw [← ht, List.take_append_drop]
   exact ⟨mid, by rw [h1, hmid]⟩
 
+
+theorem drop_stretch {α} (X M Y : List α) (n : Nat) : (X ++ M ++ Y).drop (X.length + M.length + n) = Y.drop n := by
+  have : X.length + M.length + n = (X ++ M).length + n := by simp
+  rw [this, List.drop_append]
+  simp
+
+theorem get_stretch {α} (X M Y : List α) (n : Nat) : (X ++ M ++ Y)[X.length + M.length + n]? = Y[n]? := by
+  have : X.length + M.length + n = (X ++ M).length + n := by simp
+  rw [this, List.getElem?_append_right (by omega)]
+  simp
+
+/-- **The property's own quantifier: a stretch of tokens of one declaration is deleted, inserted or replaced.**
+    `A = X ++ M0 ++ Y` is the undamaged sequence, `B = X ++ M ++ Y` the damaged one (`M0 = [t]`, `M = []`: a token
+    deleted; `M0 = []`, `M = [t]`: inserted; `M0 = [t]`, `M = [t']`: replaced; any other stretch as well), and the
+    damage ends in front of the last token in front of `d0` (at least one undamaged token stands between the damage
+    and the documentation comments of `d0`).  Then every parse of `B` ends with exactly the declarations of the
+    undamaged program from `d0` on, their offsets moved by the difference of the lengths. -/
+theorem stretch_damage_contained (X M0 M Y : List Token) (progA progB : Program)
+    (hA : Grammar.parseAbs (X ++ M0 ++ Y) = some progA) (hB : Parse.parse (X ++ M ++ Y) = .ok progB)
+    (pre post : List (Ref GlobalDecl)) (d0 : Ref GlobalDecl) (hsp : progA.decls = pre ++ d0 :: post)
+    (hlt : X.length + M0.length < d0.val.info.range.lo) :
+    ∃ preB, progB.decls = preB ++ ((d0 :: post).map Grammar.relDecl).map
+      (fun r => ⟨r.val, r.offset - d0.val.info.range.lo + (d0.val.info.range.lo - M0.length + M.length)⟩) := by
+  obtain ⟨e, hfe, he0, _⟩ := following_declarations_as_before (X ++ M0 ++ Y) progA hA pre (d0 :: post) hsp
+  have he : d0.val.info.range.lo = e := he0 d0 post rfl
+  subst he
+  -- write the start of `d0` as  |X| + |M0| + n + 1
+  obtain ⟨n, hn⟩ : ∃ n, d0.val.info.range.lo = X.length + M0.length + (n + 1) := ⟨d0.val.info.range.lo - X.length - M0.length - 1, by omega⟩
+  have hB' : d0.val.info.range.lo - M0.length + M.length = X.length + M.length + (n + 1) := by omega
+  have hsuf : (X ++ M ++ Y).drop (d0.val.info.range.lo - M0.length + M.length) = (X ++ M0 ++ Y).drop d0.val.info.range.lo := by
+    rw [hB', hn, drop_stretch, drop_stretch]
+  have hfB : Fresh (X ++ M ++ Y).toArray (d0.val.info.range.lo - M0.length + M.length) := by
+    rcases hfe with h0 | ⟨t, ht, hk⟩
+    · omega
+    · refine Or.inr ⟨t, ?_, hk⟩
+      have ht' : (X ++ M0 ++ Y)[d0.val.info.range.lo - 1]? = some t := by simpa using ht
+      have i1 : d0.val.info.range.lo - 1 = X.length + M0.length + n := by omega
+      have i2 : d0.val.info.range.lo - M0.length + M.length - 1 = X.length + M.length + n := by omega
+      rw [i1, get_stretch] at ht'
+      show (X ++ M ++ Y).toArray[d0.val.info.range.lo - M0.length + M.length - 1]? = some t
+      rw [List.getElem?_toArray, i2, get_stretch]
+      exact ht'
+  exact declarations_behind_damage_as_before (X ++ M0 ++ Y) (X ++ M ++ Y) progA progB hA hB pre post d0 hsp _ hsuf hfB
+
 end
 
 end Spl.C05
